@@ -15,11 +15,12 @@ def run(F, G, tier, seed):
     positions.run_xpath(chk, F, CG)
     positions.run_tcpos(chk, F)
     positions.run_gap(chk, F, CG)
+    positions.run_nodepos(chk, F)
     chk.assume("scanner positions are monotone within a parse and YYLLOC_DEFAULT is the standard one (read from parser.y)")
     return chk.finish(
         "Decides necessary conditions of well-formed positions that are visible in the code shape: location ranges of "
         "grammar callbacks, exact line-feed accounting of every scanner rule, path registration before every parse "
-        "and element-level report, agreement of XPath segments with the reader's own tag table, and the position "
-        "argument of every diagnostic.",
+        "and element-level report, agreement of XPath segments with the reader's own tag table, the position "
+        "argument of every diagnostic, and a position for every node the builders synthesise.",
         not_decided="numeric correctness of line and column for every layout; the fault-injection clauses (which block "
                     "an error is attributed to) beyond path registration")
